@@ -20,6 +20,11 @@ CHECKS = {
         note=TB + "PARTIAL: the heuristic search, the flaw graph and the smart types' resolvers are not modelled - their completeness is what (a)-(c) sample. z3 4.8.12 trusted as oracle of the constraint fragment. Programs exceeding the per-program budget are outside the property's quantifier and only counted.",
         technique="Lean 4 theorems (model-preservation of the encoders, soundness of negative answers of the CDCL model) + planted / independently decided / metamorphic end-to-end oracles in every solver configuration",
         design="§6 C02"),
+    "C03": dict(
+        text="The clauses and position constraints the planner posts around flaws and resolvers (flaw::init/expand/add_resolver, activate_*::apply, unify_atom::apply, new_causal_link) are modelled as clause generators (OratioModel/Solver/Flaw.lean); 8 theorems C03_* prove for ANY assignment satisfying them and any number of resolvers/atoms/links: a flaw in the plan has an applied resolver (exactly one if exclusive), an applied resolver has its flaw and preconditions in the plan, an atom flaw in the plan is solved by activation (atom active) or by a unification (atom not active, target active, activable, equal); integer positions obeying the posted ordering constraints plus 'unified atoms are inactive, targets active' leave no closed walk in the support relation. Tie/oracle: on every generated planning program solved by the REAL solver (every configuration of the tier) the flaw graph of the final state is read through the guarded accessor and checked: phi/rho values against those clause-level facts, atom states against the solution JSON, argument equality of unified atoms with their targets in the exposed values, the sub-goals in the plan against what the generated rule requires at the goal's argument value, acyclicity of goal->sub-goal / unified->target support.",
+        note=TB + "PARTIAL: the search and graph construction are not modelled; which clauses the planner posts is read from the code by hand (clause generators) and tied only through the final-state oracle, not by an exact correspondence of the clause database.",
+        technique="Lean 4 theorems on the posted clause/position constraints + final-state oracle over the real flaw graph on generated planning programs",
+        design="§6 C03"),
     "C04": dict(
         text="The pulse sweep of state_variable.cpp (detection loop of get_current_incs, extract_timelines) is modelled in Lean (OratioModel/Solver/Sweep.lean); 5 theorems C04_* prove for ANY number of atoms with epsilon-rational times: the sweep reports a pair iff the two atoms' [start,end) intersect (so an empty report means no overlap anywhere), every reported pair really overlaps, the ordering resolvers separate a pair, and each timeline segment lists exactly the atoms covering it. Tie: the implementation's extracted timelines are compared segment by segment with svTimeline run by the native Lean driver on the solution's atoms, svPeaks must be empty on every reported solution, and an exact oracle checks pairwise non-overlap per state-variable instance in every reported solution of generated programs, in every configuration of the tier.",
         note=TB + "PARTIAL: the flaw/resolver search around the sweep is validated end to end (oracle), not modelled. get_current_incs itself is observed only through the solutions it lets through and the timelines.",
